@@ -16,7 +16,8 @@ RULE = ('item lists of length 0-2 over all 12 item shapes (k1 absent or in {1, "
         'values, absent value} to k1 and k2, an unknown key, and include / exclude subsets of {k1, k2, kx} of total size <= 2; for each: '
         'filter_by content == scan (order, identity of the data objects, items equal up to the bookkeeping "index" key), globals and '
         'data_key preserved, select_by returns the single match or raises NoItem / TooManyItems, keys() / available_values() agree with '
-        'the scan, the source browser (content, index, globals) and the input dictionaries are unchanged; chains: filter o filter, merge '
+        'the scan, the source browser (content, index, globals) and the input dictionaries are unchanged; the whole query alphabet also on lists of 9-17 '
+        '(thorough up to 70) items and their merges (order of the selection beyond the size at which small-integer sets iterate sorted); chains: filter o filter, merge '
         'then filter, filter then merge, and every ordered pair of keyword queries on one browser; non-trivial = queries on lists of >= 2 '
         'items with at least one criterion')
 ASSUMPTIONS = ['metadata values are hashable and of distinct types (1 == True == 1.0 collisions are outside the alphabet)',
@@ -215,6 +216,33 @@ def job(args):
     return rep
 
 
+def job_large(args):
+    """Lists of 9-17 items: the id sets of the inverted index no longer iterate in increasing order, so the 'original order' clause
+    is exercised (below 9 items a set of small integers happens to iterate sorted)."""
+    from valjean.eponine.browser import Browser
+    nitems, data_key = args
+    rep = Report()
+    shapes = [(K1[1 + (i * 7) % 3] if i % 4 else None, K2[(i * 5) % 3]) for i in range(nitems)]
+    items = make_items(shapes, data_key)
+    glob = {'g': [1, 2], 'name': 'globals'}
+    brw = Browser(items, data_key=data_key, global_vars=glob)
+    case = {'items(k1,k2)': shapes, 'data_key': data_key}
+    for query in queries():
+        check_query(rep, brw, items, data_key, glob, query, f'large|n={nitems}', case)
+    other_items = make_items(shapes[::-1], data_key)
+    other = Browser(other_items, data_key=data_key, global_vars=glob)
+    merged = brw.merge(other)
+    both = items + other_items
+    for query in queries()[::3]:
+        check_query(rep, merged, both, data_key, glob, query, f'large-merged|n={2 * nitems}', dict(case, merged_with='reversed copy'))
+    rep.sample({'large list': shapes[:6], 'n': nitems})
+    return rep
+
+
+def _call(job_):
+    return job_[0](job_[1])
+
+
 def run(tier, seed):
     shapes = item_shapes()
     lists = [()] + [(s,) for s in shapes] + list(itertools.product(shapes, repeat=2))
@@ -225,8 +253,10 @@ def run(tier, seed):
     jobs = []
     for data_key in ('results', 'payload'):
         for i in range(0, len(lists), 12):
-            jobs.append((lists[i:i + 12], data_key))
-    rep = pool.pmap(job, jobs, seed)
+            jobs.append((job, (lists[i:i + 12], data_key)))
+        for nitems in ((9, 12, 17) if tier == 'quick' else (9, 10, 12, 17, 33, 70)):
+            jobs.append((job_large, (nitems, data_key)))
+    rep = pool.pmap(_call, jobs, seed)
     rep.extra['queries'] = len(queries())
     rep.extra['item_lists'] = len(lists) * 2
     return rep
